@@ -23,6 +23,14 @@ class Resource:
         if self.faulty:
             raise RuntimeError("close of %s failed" % self.name)
 
+    def __hash__(self):
+        # deterministic, so that the iteration order of the WeakSet holding the resources is the same in
+        # the symbolic run and in the native replay
+        return sum(ord(c) for c in self.name)
+
+    def __eq__(self, other):
+        return self is other
+
 
 @expose
 class Target:
